@@ -38,6 +38,8 @@ DirectDraw(proto, lf) ==
   \/ proto = "canetti" /\ lf.c = "/Message/X/verification_vector/data[]"
   \/ proto = "lindell22" /\ lf.c = "/zeroR1/verificationVector/verification_vector/data[]" /\ lf.i >= 1
   \/ proto = "lindell22" /\ lf.c = "/bigR/x"
+  \/ proto = "ecbbot" /\ lf.c = "/ms"                  \* the sender's key share g^a
+  \/ proto = "rvole" /\ lf.c = "/OtR1/ms"
 
 \* the sub-proofs of an AND composition (Gennaro round 1: one Okamoto proof per coefficient) are produced by goroutines that
 \* draw their commitment randomness from the party's single reader in scheduler order, so WHICH chunk lands in which
@@ -49,13 +51,31 @@ SameShape(LA, LB) == Len(LA) = Len(LB) /\ \A n \in 1..Len(LA) : SameKey(LA[n], L
 
 AnyOf(o) == o.by[CHOOSE k \in DOMAIN o.by : TRUE]
 \* the value that is meant to be random changes; the value that is meant to be kept does not
-JointChange(proto, A, B) ==
+JointChange(proto, p, A, B) ==
   CASE proto = "session" -> AnyOf(A).sid # AnyOf(B).sid
     [] proto = "hjky" -> AnyOf(A).vv # AnyOf(B).vv
     [] proto \in {"redist", "redistAnchor", "redistNew"} -> AnyOf(A).pk = AnyOf(B).pk /\ AnyOf(A).vv # AnyOf(B).vv
     [] proto \in {"gennaro", "canetti"} -> AnyOf(A).pk # AnyOf(B).pk
     [] proto = "lindell22" -> A.pk = B.pk /\ AnyOf(A).R # AnyOf(B).R
+    \* oblivious transfer: the choices are inputs (kept), every pad of every instance changes with either party's stream
+    [] proto = "ecbbot" -> /\ A.choices = B.choices
+                           /\ \A i \in 1..Len(A.s0) : A.s0[i] # B.s0[i] /\ A.s1[i] # B.s1[i] /\ A.recv[i] # B.recv[i]
+    \* random VOLE: Alice's input is kept, both output shares change; Bob's input is sampled from Bob's stream
+    [] proto = "rvole" -> /\ A.a = B.a /\ A.c # B.c /\ A.d # B.d
+                          /\ (p = 1 => A.b = B.b) /\ (p = 2 => A.b # B.b)
     [] OTHER -> FALSE
+\* endemic OT, receiver side: for every instance and block the message of the branch that was NOT chosen is a group element
+\* g^s sampled directly (the chosen one is g^a / H(...)): leaves phi[instance][branch][block] in encoding order
+PhiDraws(e) ==
+  e.proto = "ecbbot" =>
+    LET P == SelectSeq(e.LB, LAMBDA lf : lf.c = "/phi[][][]")
+        n == Len(e.outB.choices)
+        L == Len(P) \div (2 * n)
+    IN /\ Len(P) = 2 * n * L /\ L >= 1
+       /\ \A k \in 1..Len(P) :
+            LET inst == (k - 1) \div (2 * L)
+                br == ((k - 1) \div L) % 2
+            IN br = 1 - e.outB.choices[inst + 1] => P[k].v \in SeqSet(e.drawnB[K(P[k].f)])
 Total(c) == LET RECURSIVE S(_)
                 S(D) == IF D = {} THEN 0 ELSE LET k == CHOOSE k \in D : TRUE IN c[k] + S(D \ {k})
             IN S(DOMAIN c)
@@ -72,10 +92,11 @@ CmpOK(e) ==
                LET a == e.LA[n]  b == e.LB[n] IN
                /\ (a.f # e.p /\ a.r = 1 /\ ~SchedulerOrdered(e.proto, a)) => a.v = b.v   \* not influenced before it can be
                /\ (a.f = e.p /\ RandomLeaf(e.proto, a)) => a.v # b.v           \* the party's randomised values change
-          /\ JointChange(e.proto, e.outA, e.outB)
+          /\ JointChange(e.proto, e.p, e.outA, e.outB)
   \* every party consumes its own stream, and the sampled public values are g^s for chunks s of the sender's stream
   /\ \A i \in SeqSet(e.parties) : (K(i) \in DOMAIN e.consumedB /\ (e.proto \notin {"redist", "redistAnchor", "redistNew"})) => Total(e.consumedB[K(i)]) > 0
   /\ \A n \in 1..Len(e.LB) : DirectDraw(e.proto, e.LB[n]) => e.LB[n].v \in SeqSet(e.drawnB[K(e.LB[n].f)])
+  /\ PhiDraws(e)
 
 Check(e) == CASE e.a = "hdr" -> TRUE [] e.a = "cmp" -> CmpOK(e) [] OTHER -> FALSE
 Init == l = 1
